@@ -2715,16 +2715,36 @@ _UNKNOWN = frozenset([('unknown',)])
 _LIST_GROW = ('append', 'insert')
 
 
-def _lst(n):
-    return frozenset([('list', n)])
+def _lst(n, tag=''):
+    return frozenset([('list', n, tag)])
 
 
-def _minlen_walk(p, f: Func, table: str):
+def _minlen_walk(p, f: Func, table, args=None, depth=0):
     """Per-path evaluation of `f` over the minimum-length domain (split >= 1; unfiltered comprehension preserves;
     filtered comprehension >= 0; literal = count; insert / append + 1; extend + min of the argument), loops entered once
     under the invariant "a stored list has >= 1 element".  Yields (store statement, abstract value) for every
     `<table>[...] = value`."""
     out = []
+    returned = []
+    par = _parent_map(f.node)
+
+    def flag_ctx(node):
+        """values of f's parameters implied by the innermost enclosing branch test that mentions one"""
+        cur = node
+        while id(cur) in par:
+            up = par[id(cur)]
+            if isinstance(up, ast.If):
+                truth = True if any(cur is b for b in up.body) else False if any(cur is b for b in up.orelse) else None
+                fl = {}
+                if truth is not None:
+                    for nm in f.params():
+                        val = implied(up.test, truth, lambda e, nm=nm: _is_name(e, nm))
+                        if val is not None and any(_is_name(x, nm) for x in walk_self(up.test)):
+                            fl[nm] = val
+                if fl:
+                    return ''.join(' [%s=%s]' % kv for kv in sorted(fl.items()))
+            cur = up
+        return ''
 
     def ev(e, env):
         if isinstance(e, ast.Name):
@@ -2739,11 +2759,15 @@ def _minlen_walk(p, f: Func, table: str):
             if len(e.generators) != 1:
                 return _UNKNOWN
             g = e.generators[0]
-            if g.ifs:
-                return _lst(0)
             src = ev(g.iter, env)
+            if g.ifs:
+                # `[... for x in xs if x]`: the blank elements dropped -- remembered with the flag setting it happens under
+                if len(g.ifs) == 1 and isinstance(g.target, ast.Name) and _is_name(g.ifs[0], g.target.id) and all(a[0] == 'list' for a in src):
+                    return _lst(0, 'blank-filtered' + flag_ctx(e))
+                return _lst(0)
             if all(a[0] == 'list' for a in src):
-                return _lst(min(a[1] for a in src))
+                tags = {a[2] for a in src}
+                return _lst(min(a[1] for a in src), tags.pop() if len(tags) == 1 else '')
             return _lst(0)
         if isinstance(e, ast.IfExp):
             return ev(e.body, env) | ev(e.orelse, env)
@@ -2771,6 +2795,16 @@ def _minlen_walk(p, f: Func, table: str):
                 r = h.node.returns
                 if r is not None and p.resolve_expr(h.module, r, h) == 'builtins.str':
                     return _SCALAR
+                # a plain module-level helper of the same module: what it returns, read with the same walk
+                if h.cls is None and h.parent is None and h.module is f.module and depth < 2 and not h.is_async and not h.decorators \
+                        and not (h.node.args.vararg or h.node.args.kwarg) \
+                        and not any(isinstance(x, (ast.Yield, ast.YieldFrom, ast.Global, ast.Nonlocal)) for x in ast.walk(h.node)):
+                    hp = h.params()
+                    given = {hp[i]: ev(a, env) for i, a in enumerate(e.args) if i < len(hp) and not isinstance(a, ast.Starred)}
+                    given.update({k.arg: ev(k.value, env) for k in e.keywords if k.arg})
+                    _st, rets = _minlen_walk(p, h, None, given, depth + 1)
+                    if rets:
+                        return frozenset().union(*rets)
             if h in ('builtins.str', 'builtins.len', 'builtins.int'):
                 return _SCALAR
             return _UNKNOWN
@@ -2796,7 +2830,7 @@ def _minlen_walk(p, f: Func, table: str):
         new = set()
         for a in cur:
             if a[0] == 'list':
-                new.add(('list', a[1] + by))
+                new.add(('list', a[1] + by, a[2] if by == 0 else ''))
             else:
                 new.add(a)       # a stored entry / unknown only grows: the invariant is kept
         env[recv] = frozenset(new)
@@ -2821,7 +2855,7 @@ def _minlen_walk(p, f: Func, table: str):
 
             for a in [x for x in walk_self(test) if nonempty(x)]:
                 if implied(test, truth, lambda e, a=a: e is a) is True:
-                    env[nm] = frozenset(('list', max(x[1], 1)) if x[0] == 'list' else x for x in alts)
+                    env[nm] = frozenset(('list', max(x[1], 1), x[2]) if x[0] == 'list' else x for x in alts)
                     break
         return env
 
@@ -2894,13 +2928,18 @@ def _minlen_walk(p, f: Func, table: str):
             for h in st.handlers:
                 res += run_block(h.body, env)
             return [e2 for e in res for e2 in run_block(st.finalbody, e)] if st.finalbody else res
-        if isinstance(st, (ast.Continue, ast.Break, ast.Return, ast.Raise)):
+        if isinstance(st, ast.Return):
+            if st.value is not None:
+                returned.append(ev(st.value, env))
+            return []
+        if isinstance(st, (ast.Continue, ast.Break, ast.Raise)):
             return []
         return [env]
 
     env0 = {a: _SCALAR for a in f.params()}
+    env0.update(args or {})
     run_block(f.node.body, env0)
-    return out
+    return out, returned
 
 
 def _last_index_sites(p):
@@ -2965,7 +3004,7 @@ def r17_stored_list_nonempty(run):
     if len({r.value.id for r in rets}) != 1:
         raise UnknownIdiom('%s: the returned mapping is not one local' % f.qual)
     table = rets[0].value.id
-    stores = _minlen_walk(p, f, table)
+    stores, _rets = _minlen_walk(p, f, table)
     if not stores:
         raise AnchorError('%s: no store into the mapping `%s`' % (f.qual, table))
     sites = None
@@ -3004,6 +3043,24 @@ def r17_stored_list_nonempty(run):
                             flags.setdefault(nm, val)
             cur = up
         cons = short(st, 200) + ''.join('  [%s=%s]' % kv for kv in sorted(flags.items()))
+        # keyed by WHAT is stored when that can be said: the blank-filtered elements of the comma-separated value under a key
+        # the mapping did not hold before (however the filter and the store are spelled); any other empty store by its text
+        empties = {a[2] for a in alts if a[0] == 'list' and a[1] == 0}
+        fresh = False
+        cur = st
+        while id(cur) in par:
+            up = par[id(cur)]
+            if isinstance(up, ast.If):
+                truth = True if any(cur is b for b in up.body) else False if any(cur is b for b in up.orelse) else None
+                for c in walk_self(up.test):
+                    if truth is not None and isinstance(c, ast.Compare) and len(c.ops) == 1 and isinstance(c.ops[0], (ast.In, ast.NotIn)) \
+                            and _is_name(c.comparators[0], table):
+                        v_in = implied(up.test, truth, lambda e, c=c: e is c)
+                        if v_in is not None and (v_in is False) == isinstance(c.ops[0], ast.In):
+                            fresh = True
+            cur = up
+        if fresh and len(empties) == 1 and next(iter(empties)).startswith('blank-filtered'):
+            cons = 'fresh-key store of the blank-filtered CSV elements (may be empty)' + next(iter(empties))[len('blank-filtered'):]
         run.check(not bare, what, f, cons, where=f.loc(st),
                   witness=['the stored list may be empty (minimum length 0)'] + ['%s %s: unguarded %s' % (g.loc(x), g.qual, short(x)) for g, x in bare],
                   runtime_witness="auto_parse_qs_csv=True, keep_blank_qs_values=False: '?a=,' is stored as {'a': []} and get_param('a') raises "
